@@ -12,7 +12,13 @@
  *            weak and not counted)
  *   a double release reads a freed header inside vm_release: AddressSanitizer aborts the run.
  *
- * usage: heap_probe audit <fuel> <file.nvm>...
+ * usage: heap_probe audit|auditout|live <fuel> <file.nvm>...
+ *   audit     audit at every instruction boundary, program output discarded
+ *   auditout  same, and everything the program prints is written to <file.nvm>.out (the check compares
+ *             it with the values the program must print: a dangling value shows as other data); the first
+ *             audit failures are also written into that stream ("!!FAIL ..."), i.e. at the place of the
+ *             output where they happened
+ *   live      no audits, only live-object counts (churn families)
  *   one forked child per module; prints per module
  *     RES <file> rc=<VmResult> steps=<n> audits=<n> maxreach=<n> peak_live=<n> final_live=<n> fuel_out=<0|1>
  *     FAIL <file> step=<n> fn=<name> ip=<n> kind=<dangling|undercount|typeconf> <detail>     (first 5 per module)
@@ -89,6 +95,8 @@ static long g_fuel = 0;
 static int g_fuel_out = 0;
 static VmState *g_vm = NULL;
 static int g_audit_every = 1;
+static int g_keep_output = 0;
+static FILE *g_out = NULL;      /* auditout: the program's output stream; audit failures are noted in it as well */
 
 static const char *fn_name(VmState *vm) {
     const NvmModule *m = vm->module;
@@ -102,10 +110,13 @@ static void fail(VmState *vm, const char *kind, const char *fmt, ...) __attribut
 #include <stdarg.h>
 static void fail(VmState *vm, const char *kind, const char *fmt, ...) {
     g_fails++;
-    if (g_fails > 5) return;
+    if (g_fails > 5 && !(g_out && g_fails <= 20000)) return;
     char buf[400];
     va_list ap; va_start(ap, fmt); vsnprintf(buf, sizeof buf, fmt, ap); va_end(ap);
-    printf("FAIL %s step=%lu fn=%s ip=%u kind=%s %s\n", g_file, g_step, fn_name(vm), vm->ip, kind, buf);
+    if (g_fails <= 5)
+        printf("FAIL %s step=%lu fn=%s ip=%u kind=%s %s\n", g_file, g_step, fn_name(vm), vm->ip, kind, buf);
+    /* in the output stream too: there it sits between the lines the program printed before and after */
+    if (g_out) fprintf(g_out, "\n!!FAIL fn=%s kind=%s %s\n", fn_name(vm), kind, buf);
 }
 
 static bool is_ref(NanoValue v) {
@@ -221,8 +232,13 @@ static int run_one(const char *file) {
     g_file = file;
     VmState *vm = calloc(1, sizeof *vm);
     vm_init(vm, m);
-    FILE *devnull = fopen("/dev/null", "w");
+    char outpath[4096];
+    snprintf(outpath, sizeof outpath, "%s.out", file);
+    FILE *devnull = fopen(g_keep_output ? outpath : "/dev/null", "w");
+    if (!devnull) { fprintf(stderr, "cannot open output file for %s\n", file); exit(3); }
+    if (g_keep_output) setvbuf(devnull, NULL, _IOLBF, 0);   /* keep what was printed before an abort */
     vm->output = devnull;
+    if (g_keep_output) g_out = devnull;
     g_vm = vm;
     nl_verif_vm_step = step_hook;
     VmResult r = vm_execute(vm);
@@ -230,6 +246,7 @@ static int run_one(const char *file) {
     /* one more audit of the final state (result on the stack, globals) */
     if (!g_fuel_out && g_audit_every) audit(vm);
     unsigned long final_live = vm->heap.stats.num_objects;
+    fflush(devnull);
     printf("RES %s rc=%d steps=%lu audits=%lu maxreach=%lu peak_live=%lu final_live=%lu fuel_out=%d fails=%lu\n",
            file, (int)r, g_step, g_audits, g_maxreach, g_peak, final_live, g_fuel_out, g_fails);
     fflush(stdout);
@@ -243,9 +260,10 @@ static int run_one(const char *file) {
 
 int main(int argc, char **argv) {
     g_argc = argc; g_argv = argv;
-    if (argc < 4 || (strcmp(argv[1], "audit") && strcmp(argv[1], "live"))) {
-        fprintf(stderr, "usage: heap_probe audit|live <fuel> <file.nvm>...\n"); return 3;
+    if (argc < 4 || (strcmp(argv[1], "audit") && strcmp(argv[1], "auditout") && strcmp(argv[1], "live"))) {
+        fprintf(stderr, "usage: heap_probe audit|auditout|live <fuel> <file.nvm>...\n"); return 3;
     }
+    if (!strcmp(argv[1], "auditout")) g_keep_output = 1;
     if (!strcmp(argv[1], "live")) g_audit_every = 0;     /* only count live objects (churn family) */
     g_fuel = atol(argv[2]);
     setvbuf(stdout, NULL, _IOLBF, 0);
